@@ -6,9 +6,11 @@ CHECK = {
     "packages": ["./breaker"],
     "harness": ["breaker/zz_verif_c47.go"],
     "entries": [
-        {"fn": P + "vC47_history", "opts": HOPTS,
-         "cases_quick": {"buckets": [1, 3], "bucketNanos": [16], "halfOpenMax": [1], "calls": [3], "nested": [0, 1]},
-         "cases_thorough": {"buckets": [1, 2, 3], "bucketNanos": [1, 16], "halfOpenMax": [1, 2], "calls": [4], "nested": [0, 1]},
+        {"fn": P + "vC47_step", "opts": HOPTS,
+         "cases_quick": {"buckets": [1, 3], "bucketNanos": [16], "halfOpenMax": [1, 2]},
+         "cases_thorough": {"buckets": [1, 2, 3], "bucketNanos": [1, 16], "halfOpenMax": [1, 2]}},
+        {"fn": P + "vC47_history", "opts": HOPTS, "tiers": ("thorough",),
+         "cases": {"buckets": [1, 2], "bucketNanos": [16], "halfOpenMax": [1], "calls": [2], "nested": [0, 1]},
          "cover_optional": ("closed-again", "rejected-halfopen-full", "half-open", "opened", "rejected-open")},
         {"fn": P + "vC47_buckets", "cases": {"buckets": [1, 2, 3], "bucketNanos": [1, 10]}},
         {"fn": P + "vC47_sanitize"},
